@@ -77,7 +77,12 @@ func NewCronTriggerWithLoc(expression string, location *time.Location) (*CronTri
 
 // NextFireTime returns the next time at which the CronTrigger is scheduled to fire.
 func (ct *CronTrigger) NextFireTime(prev int64) (int64, error) {
-	prevTime := time.Unix(prev/int64(time.Second), 0).In(ct.location)
+	// the whole second prev lies in (rounded down, also for times before 1970)
+	prevSec := prev / int64(time.Second)
+	if prev%int64(time.Second) < 0 {
+		prevSec--
+	}
+	prevTime := time.Unix(prevSec, 0).In(ct.location)
 	_, prevOffset := prevTime.Zone()
 	// wall holds the wall clock reading to search from
 	wall := prevTime
